@@ -31,15 +31,20 @@ FUNCTIONS = [(W, "RTDCWriter.write_ndarray"),
              (HE, "ChildScalar._fetch_ufunc_attr"),
              (HE, "ChildScalar.__array__"), (HE, "ChildScalar.min"),
              (HE, "ChildScalar.max"), (HE, "ChildScalar.mean"),
-             (CP, "rtdc_copy"), (CP, "h5ds_copy")]
+             (CP, "rtdc_copy"), (CP, "h5ds_copy"),
+             (W, "RTDCWriter.store_feature")]
 BOUNDS = {
     "quick": {"stored events m": "0..3", "appended events n": "1..3",
               "calls (composed)": "<= 3 calls of 1..2 events",
               "values": "reals or NaN (any pattern, incl. all-NaN)",
-              "child": "parent of 3 events, symbolic filter"},
+              "child": "parent of 3 events, symbolic filter",
+              "replace mode": "real store_feature(mode=replace) over a "
+                              "writer-written feature, (m, n) in (2,1) (2,2) "
+                              "(1,2)"},
     "thorough": {"stored events m": "0..4", "appended events n": "1..4",
                  "calls (composed)": "<= 4 calls of 1..2 events",
-                 "values": "reals or NaN", "child": "parent of 4 events"},
+                 "values": "reals or NaN", "child": "parent of 4 events",
+                 "replace mode": "as quick plus (3,2) (2,3)"},
 }
 OUTSIDE = ["floating-point rounding of the running mean (values are exact "
            "reals + NaN flag)", "+-inf values", "integer overflow",
@@ -183,6 +188,34 @@ def run_append(eng, m, n, attrs, cached, integer):
     return "ok"
 
 
+def run_replace(eng, m, n):
+    """a feature written by the writer and then rewritten with
+    mode="replace" (real store_feature): the summaries describe the new data
+    only"""
+    f = symh5.File("a.rtdc", "w")
+    g = f.require_group("events")
+    old = fresh_vals(eng, "old", m)
+    new = fresh_vals(eng, "new", n)
+    fork_nans(old + new)
+    hw = make_writer(f)
+    with quiet():
+        hw.write_ndarray(g, "deform", SArr(old, float))
+        hw2 = make_writer(f)
+        hw2.mode = "replace"
+        hw2.store_feature("deform", SArr(new, float))
+    ds = g["deform"]
+    eng.prove(z3.BoolVal(len(ds.data) == n), "replace:length")
+    for x, y in zip(ds.data.elems, new):
+        if x is symh5.UNSET:
+            eng.fail("replace: row never written")
+        else:
+            eng.prove(SFloat.lift(x).same(y), "replace:data")
+    rd = reader_for(ds)
+    with quiet():
+        check_summary(eng, lambda k: getattr(rd, k)(), new, "replace-reader")
+    return "ok"
+
+
 def run_multi(eng, sizes, reopen, integer):
     f = symh5.File("a.rtdc", "w")
     g = f.require_group("events")
@@ -295,6 +328,8 @@ def run_case(name, params):
     elif kind == "multi":
         fn = lambda e: run_multi(e, params["sizes"], params["reopen"],
                                  params["integer"])
+    elif kind == "replace":
+        fn = lambda e: run_replace(e, params["m"], params["n"])
     elif kind == "child":
         fn = lambda e: run_child(e, params["N"])
     elif kind == "copy":
@@ -332,6 +367,10 @@ def cases(tier, seed):
                             dict(kind="multi", sizes=list(sizes),
                                  reopen=reopen, integer=False)))
     out.append(("child N=%d" % NC, dict(kind="child", N=NC)))
+    for m, n in ((2, 1), (2, 2), (1, 2)) + (() if tier == "quick"
+                                           else ((3, 2), (2, 3))):
+        out.append(("replace m=%d n=%d" % (m, n),
+                    dict(kind="replace", m=m, n=n)))
     for m in range(1, M + 1):
         for attrs in ATTR_SETS:
             out.append(("copy m=%d attrs=%s" % (m, "+".join(attrs)),
@@ -420,7 +459,37 @@ def concrete_appends(chunks_, attrs_first, reopen, dtype=float):
     return fails
 
 
+def concrete_replace(old, new):
+    import h5py
+    RTDCWriter = real(W, "RTDCWriter")
+    H5ScalarEvent = real(EV, "H5ScalarEvent")
+    fails = []
+    with tempfile.TemporaryDirectory(prefix="verif_c20_") as td, quiet():
+        path = os.path.join(td, "t.rtdc")
+        with RTDCWriter(path, mode="reset") as hw:
+            hw.store_feature("deform", np.array(old, dtype=float))
+        with RTDCWriter(path, mode="replace") as hw:
+            hw.store_feature("deform", np.array(new, dtype=float))
+        with h5py.File(path, "r") as h5:
+            ds = h5["events/deform"]
+            if not np.array_equal(ds[:], np.asarray(new, dtype=float),
+                                  equal_nan=True):
+                fails.append("replace: stored data differ from written data")
+            exp = _expect(new)
+            rd = H5ScalarEvent(ds)
+            for k in ("min", "max", "mean"):
+                got = getattr(rd, k)()
+                if not _close(got, exp[k]):
+                    fails.append("replace: %s reported %r, NaN-ignoring %s "
+                                 "of the data is %r (wrote %r, then replaced "
+                                 "by %r)" % (k, float(got), k, float(exp[k]),
+                                             old, new))
+    return fails
+
+
 def classify(msg):
+    if msg.startswith("replace"):
+        return "store_feature|replace-mode|stale-summary"
     if msg.startswith("mean"):
         return "write_ndarray|running-mean-weights-NaN-values"
     if msg.startswith("copy"):
@@ -445,6 +514,9 @@ def replay(case, params, v):
         chunks_ = [_vals(vals, "c%d_" % i, n, params["integer"])
                    for i, n in enumerate(params["sizes"])]
         fails = concrete_appends(chunks_, None, params["reopen"])
+    elif kind == "replace":
+        fails = concrete_replace(_vals(vals, "old", params["m"]),
+                                 _vals(vals, "new", params["n"]))
     elif kind == "child":
         fails = concrete_child(_vals(vals, "p", params["N"]),
                                [bool(vals.get("f%d" % i))
